@@ -1098,6 +1098,16 @@ def rule_d3(ctx):
         p = skips(cfg, rn[0], lambda m: m is cfg.exit, parse_nodes)
         ck.expect(p is None, 'C17-D3', rr.qual, 'every line read is parsed before read_reply returns',
                   'read_reply can return after reading a line without parsing it', rr.loc(st), path=describe_path(p) if p else None)
+        # (c') a read that failed on the reader's line limit is fatal: StreamReader has by then thrown away an arbitrary,
+        #      segmentation-dependent part of its buffer, so carrying on parses the middle of a line as a new one
+        pm_ = U.parents(rr.node)
+        for a_ in U.ancestors(c, pm_):
+            if isinstance(a_, ast.Try) and any(c is x for b in a_.body for x in ast.walk(b)):
+                for h_ in a_.handlers:
+                    ck.expect(U.all_paths_raise(h_.body), 'C17-D3', rr.qual, 'a failed readline() ends read_reply on every path of its handler',
+                              'the handler around readline() can carry on after an over-long line: what StreamReader dropped depends on '
+                              'how the bytes arrived, so the same reply is assembled differently for different segmentations (and its real '
+                              'final line can be left for the next command)', rr.loc(h_))
     # (d) ... and leaves only once the code is set
     def code_fact(e, t):
         if isinstance(e, ast.Compare) and len(e.ops) == 1 and isinstance(e.comparators[0], ast.Constant) \
